@@ -1,51 +1,140 @@
 """
 C08 — the database registry stays coherent over any history of operations.
 
-Tie: correspondence of operation histories (load / load again / add / rename / clear / update / copy / getm / get by index,
-on two databases) between the real `TsDB` objects and the Lean state machine `Qats.Registry.step`: after every operation
+Tie: correspondence of operation histories (load / load again / add / rename / clear / update / copy / getm / get by index /
+iterate, on two databases) between the real `TsDB` objects and the Lean state machine `Qats.Registry.step`: after every operation
 the outcome (done / error kind / returned series identities), `n`, `register_keys`, the key sets of the three dictionaries
-and the cache state (None vs object identity) of both databases are compared.
-Search: coherence clauses on the real objects after every operation.
+and the cache state (None vs object identity) of both databases are compared.  Iteration (`for ts in db`) has the registry
+effect of `getm(None, store=True)`, which is what the model is asked; the implementation side really iterates.
+Search: coherence clauses on the real objects after every operation (size, listing, iteration order, containment, bookkeeping);
+a plain dictionary model of the DATA (key -> the file column / in-memory series it was registered from, carried along by rename /
+clear / update / copy) against every series returned, iterated or cached; a second family of histories on one file of each of the
+ten readable formats with multi-series requests (names, full keys, register indices) in an order different from the order on
+file, through every container API, on fresh / partly cached databases.
 """
+import os
+
 import numpy as np
 
 from .. import core
 from ..dbutil import Files, digest, err_enum, hx, hxlist, renumber
 
 RULE = ("seeded histories of 3-14 operations over a weighted alphabet favouring multi-step patterns (load twice, copy then inspect, "
-        "update with a late clash, rename then read, clear by pattern) on 3 generated files (names with spaces, brackets, '/'-in-"
-        "brackets) and in-memory series; thorough adds all histories of length <= 3 over a fixed 16-letter alphabet; "
-        "non-trivial = history with at least one successful mutation and one rejected operation or cache interaction; distinct by history")
+        "update with a late clash, rename then read / then iterate, clear by pattern) on 7 generated files (.pkl x3, .ts, .csv, .tda, "
+        ".dat; names with spaces, brackets, '/'-in-brackets, not in alphabetical order on file) and in-memory series; a names "
+        "argument is None, one pattern, or 2-4 distinct exact names in random (mostly non-file) order; a third of the histories "
+        "starts with one or two lazy loads; thorough adds all histories of length <= 3 over a fixed 18-letter alphabet; "
+        "second family: per format (all ten) histories on one synthesised file of 3-5 series: load, multi-series "
+        "getm/getd/getl/getda by shuffled names / full keys / index lists, get, copy and update into a fresh database, iterate, "
+        "clear, rename (index-addressed formats), store on/off; non-trivial = history with at least one successful mutation and "
+        "one rejected operation or cache interaction, or (second family) a multi-series request out of file order; distinct by history")
 
-FILES = [("d1/f1.pkl", ["a", "b", "c"]), ("d1/f2.pkl", ["a", "x y", "T [kN/m]"]), ("d2/f1.pkl", ["b", "c"])]
+# (relative path, names in file order); the extension selects the format.  All are index-addressed formats: name-addressed ones
+# are subject to the known finding F17 after a rename and are exercised in the second family (without renaming).
+FILES = [("d1/f1.pkl", ["a", "b", "c"]), ("d1/f2.pkl", ["a", "x y", "T [kN/m]"]), ("d2/f1.pkl", ["b", "c"]),
+         ("d2/g1.ts", ["c", "m(1)", "a", "b"]), ("d1/h1.csv", ["b", "x y", "T [kN/m]", "a"]), ("d2/k1.tda", ["z^2", "b", "a"]),
+         ("d1/l1.dat", ["c", "new", "a"])]
+FILE_WEIGHTS = [4, 4, 4, 3, 2, 2, 2]
+NSAMP = 4
 NAMES = ["a", "b", "c", "x y", "T [kN/m]", "new", "m(1)", "z^2"]
 PATS = ["a", "b", "*", "*a", "f1.pkl/*", "x y", "T [kN/m]", "nomatch", "*[kN/m]", "d1/*", "?"]
+FLOAT32 = (".ts", ".tda", ".bin")
+
+T_COHERENT = "size, listing, iteration and per-series bookkeeping describe one set of unique keys in registration order"
+T_DATA = "every listed series is retrievable and holds the data a plain dictionary model predicts"
+T_STORE_TRUE = "with caching enabled later retrievals return the very same object"
+T_STORE_FALSE = "retrieval with caching disabled leaves no data behind"
+
+
+def make_files(fl):
+    """the files of FILES under fl.root; value of (file i, column j, sample s) = 100*(i+1) + 10*j + s (exact in 4-byte reals)"""
+    from . import c01
+    paths = []
+    for i, (rel, names) in enumerate(FILES):
+        stem, ext = os.path.splitext(rel)
+        if ext == ".pkl":
+            paths.append(fl.make(rel, names, n=NSAMP, seed=i))
+        else:
+            spec = dict(fmt=ext[1:], base=os.path.basename(stem), dir=os.path.dirname(rel), names=list(names),
+                        time=[float(s) for s in range(NSAMP)],
+                        cols=[[100.0 * (i + 1) + 10.0 * j + s for s in range(NSAMP)] for j in range(len(names))], own=None, tdms_wf={})
+            paths.append(c01.write_file(fl.root, spec))
+    return paths
+
+
+def truth(prov):
+    """(t, x) the plain dictionary model predicts for a series registered from file column (i, j) / added in memory"""
+    if prov[0] == "file":
+        t = np.arange(NSAMP, dtype=float)
+        return t, 100.0 * (prov[1] + 1) + 10.0 * prov[2] + t
+    t = np.arange(3.0)
+    return t, t * 2
+
+
+def near(a, b, tol):
+    a, b = np.asarray(a, dtype=float), np.asarray(b, dtype=float)
+    return a.shape == b.shape and bool(np.all(np.abs(a - b) <= tol * np.maximum(1.0, np.abs(b))))
+
+
+def same_data(ts, prov):
+    t, x = truth(prov)
+    tol = 1e-6 if prov[0] == "file" and os.path.splitext(FILES[prov[1]][0])[1] in FLOAT32 else 1e-12
+    return near(ts.t, t, tol) and near(ts.x, x, tol)
+
+
+def describe(prov):
+    return "in-memory series (t=0..2, x=2t)" if prov[0] != "file" else "column %d (%r) of %s: x=%s" % (
+        prov[2], FILES[prov[1]][1][prov[2]], FILES[prov[1]][0], list(map(float, truth(prov)[1])))
+
+
+def gen_names(rng):
+    """names argument of getm / update / copy: None, one pattern, or several distinct exact names in random order"""
+    r = rng.random()
+    if r < 0.22:
+        return None
+    if r < 0.62:
+        return rng.choice(PATS)
+    out = []
+    for nm in rng.sample(["a", "b", "c", "a", "b", "c", "x y", "T [kN/m]", "new", "m(1)", "z^2"], rng.choice([2, 3, 4])):
+        if nm not in out:
+            out.append(nm)
+    return out
 
 
 def gen_history(rng, L=None):
     L = L or rng.randint(3, 14)
     ops = []
-    for _ in range(L):
+    if rng.random() < 0.33:
+        for _ in range(rng.choice([1, 1, 2])):
+            ops.append(("load", "A", rng.choices(range(len(FILES)), FILE_WEIGHTS)[0], False))
+    while len(ops) < L:
         r = rng.random()
         w = "A" if rng.random() < 0.75 else "B"
-        if r < 0.2:
-            fi = rng.randrange(len(FILES))
+        if r < 0.18:
+            fi = rng.choices(range(len(FILES)), FILE_WEIGHTS)[0]
             ops.append(("load", w, fi, rng.random() < 0.35))
-        elif r < 0.3:
+        elif r < 0.27:
             ops.append(("add", w, rng.choice(NAMES)))
-        elif r < 0.42:
+        elif r < 0.39:
             ops.append(("rename", w, rng.choice(PATS[:8] + NAMES), rng.choice(NAMES)))
-        elif r < 0.5:
+        elif r < 0.46:
             ops.append(("clear", w, rng.choice([None] + PATS)))
-        elif r < 0.62:
-            ops.append(("update", rng.choice([None] + PATS), rng.random() < 0.5))
-        elif r < 0.72:
-            ops.append(("copy", rng.choice([None] + PATS), rng.random() < 0.5))
+        elif r < 0.57:
+            ops.append(("update", gen_names(rng), rng.random() < 0.5))
+        elif r < 0.66:
+            ops.append(("copy", gen_names(rng), rng.random() < 0.5))
+        elif r < 0.86:
+            ops.append(("getm", w, gen_names(rng), rng.random() < 0.6))
         elif r < 0.92:
-            ops.append(("getm", w, rng.choice([None] + PATS), rng.random() < 0.6))
-        else:
             ops.append(("geti", w, rng.randint(0, 5), rng.random() < 0.6))
+        else:
+            ops.append(("iter", w))
     return ops
+
+
+def nameslist(x):
+    """None | pattern | list of patterns -> the `names` argument as a list (or None)"""
+    return None if x is None else (list(x) if isinstance(x, (list, tuple)) else [x])
 
 
 def encode(ops, paths):
@@ -62,11 +151,13 @@ def encode(ops, paths):
         elif k == "clear":
             toks.append("clear %s %s" % (op[1], "none" if op[2] is None else hx(op[2])))
         elif k in ("update", "copy"):
-            toks.append("%s %s %d" % (k, "none" if op[1] is None else hxlist([op[1]]), op[2]))
+            toks.append("%s %s %d" % (k, "none" if op[1] is None else hxlist(nameslist(op[1])), op[2]))
         elif k == "getm":
-            toks.append("getm %s %s %d" % (op[1], "none" if op[2] is None else hxlist([op[2]]), op[3]))
+            toks.append("getm %s %s %d" % (op[1], "none" if op[2] is None else hxlist(nameslist(op[2])), op[3]))
         elif k == "geti":
             toks.append("geti %s %d %d" % (op[1], op[2], op[3]))
+        elif k == "iter":
+            toks.append("getm %s none 1" % op[1])       # registry effect of `for ts in db` (each key: get(name=key), store on)
     return "db.run " + " ; ".join(toks)
 
 
@@ -85,42 +176,91 @@ def coherent(db):
     return probs
 
 
+def iteration(db):
+    """`for ts in db` against the listing: one series per key, in listing order, each the object now cached under its key"""
+    ks = list(db.register_keys)
+    items = list(db)
+    probs = []
+    if len(items) != len(ks):
+        probs.append("iteration yields %d series, listing has %d keys" % (len(items), len(ks)))
+    else:
+        off = [i for i, (k, ts) in enumerate(zip(ks, items)) if db.register.get(k) is not ts]
+        if off:
+            where = []
+            for i in off[:4]:
+                at = [k for k in ks if db.register.get(k) is items[i]]
+                where.append("position %d yields the series of %s, listing has %s there" % (
+                    i, os.path.basename(at[0]) if at else "an unregistered object", os.path.basename(ks[i])))
+            probs.append("iteration order differs from listing order: " + "; ".join(where))
+    return ks, items, probs
+
+
 def execute(ops, paths, chk=None, inp=None):
     from qats import TsDB, TimeSeries
     A, B = TsDB(), TsDB()
     ids, keep, recs = {}, [], []
+    exp = {"A": {}, "B": {}}           # plain dictionary model of the data: key -> provenance
     t = np.arange(3.0)
+    reported = set()
+
+    def check_data(w, key, ts, how, upto):
+        prov = exp[w].get(key)
+        if chk is None or prov is None or ts is None or "data" in reported:
+            return
+        chk.count("oracle:data")
+        if not same_data(ts, prov):
+            reported.add("data")
+            chk.fail(T_DATA, dict(inp, upto=upto, db=w, key=key, how=how), describe(prov),
+                     dict(t=list(map(float, ts.t)), x=list(map(float, ts.x))), clause="data")
+
     for op in ops:
         db = lambda w: A if w == "A" else B
         k = op[0]
         snap = None
+        upto = len(recs) + 1
+        before = {"A": list(A.register_keys), "B": list(B.register_keys)}
         try:
             if k == "load":
                 snap = (op[1], snapshot(db(op[1])))
                 db(op[1]).load(paths[op[2]], read=op[3])
                 out = "done"
+                for j, nm in enumerate(FILES[op[2]][1]):
+                    exp[op[1]][os.path.join(paths[op[2]], nm)] = ("file", op[2], j)
             elif k == "add":
                 snap = (op[1], snapshot(db(op[1])))
                 ts = TimeSeries(op[2], t, t * 2)
                 keep.append(ts)
                 db(op[1]).add(ts)
                 out = "done"
+                new = [kk for kk in db(op[1]).register_keys if kk not in before[op[1]]]
+                if len(new) == 1:
+                    exp[op[1]][new[0]] = ("mem",)
             elif k == "rename":
                 snap = (op[1], snapshot(db(op[1])))
                 db(op[1]).rename(op[2], op[3])
                 out = "done"
+                after = list(db(op[1]).register_keys)
+                if len(after) == len(before[op[1]]):
+                    for kb, ka in zip(before[op[1]], after):
+                        if kb != ka and kb in exp[op[1]]:
+                            exp[op[1]][ka] = exp[op[1]].pop(kb)
             elif k == "clear":
                 db(op[1]).clear(names=op[2], display=False)
                 out = "done"
+                exp[op[1]] = {kk: v for kk, v in exp[op[1]].items() if kk in db(op[1]).register_keys}
             elif k == "update":
                 snap = ("A", snapshot(A))
-                A.update(B, names=None if op[1] is None else [op[1]], shallow=not op[2])
+                A.update(B, names=nameslist(op[1]), shallow=not op[2])
                 out = "done"
+                for kk in A.register_keys:
+                    if kk not in before["A"] and kk in exp["B"]:
+                        exp["A"][kk] = exp["B"][kk]
             elif k == "copy":
-                B = A.copy(names=None if op[1] is None else [op[1]], shallow=not op[2])
+                B = A.copy(names=nameslist(op[1]), shallow=not op[2])
                 out = "done"
+                exp["B"] = {kk: exp["A"][kk] for kk in B.register_keys if kk in exp["A"]}
             elif k == "getm":
-                c = db(op[1]).getm(names=None if op[2] is None else [op[2]], store=op[3], fullkey=True)
+                c = db(op[1]).getm(names=nameslist(op[2]), store=op[3], fullkey=True)
                 keep.extend(c.values())
                 if chk is not None and op[3]:
                     notsame = [kk for kk, v in c.items() if db(op[1]).register.get(kk) is not v]
@@ -128,11 +268,23 @@ def execute(ops, paths, chk=None, inp=None):
                         chk.fail("with caching enabled later retrievals return the very same object (every series returned by a "
                                  "store-on retrieval is the cached one)", dict(inp, op=list(map(str, op))), "cached", notsame,
                                  clause="store-true")
+                for kk, v in c.items():
+                    check_data(op[1], kk, v, "returned by getm", upto)
                 out = "series " + ",".join("%s=o%d" % (hx(kk), ids.setdefault(id(v), len(ids))) for kk, v in c.items())
             elif k == "geti":
                 c = db(op[1]).getm(ind=op[2], store=op[3], fullkey=True)
                 keep.extend(c.values())
+                for kk, v in c.items():
+                    check_data(op[1], kk, v, "returned by getm(ind)", upto)
                 out = "series " + ",".join("%s=o%d" % (hx(kk), ids.setdefault(id(v), len(ids))) for kk, v in c.items())
+            elif k == "iter":
+                ks, items, probs = iteration(db(op[1]))
+                keep.extend(items)
+                if chk is not None:
+                    chk.count("oracle:iteration")
+                    if probs:
+                        chk.fail(T_COHERENT, dict(inp, upto=upto, db=op[1]), "iteration = listing order", probs, clause="iteration")
+                out = "series " + ",".join("%s=o%d" % (hx(kk), ids.setdefault(id(v), len(ids))) for kk, v in zip(ks, items))
         except Exception as e:
             out = err_enum(e)
             if chk is not None and snap is not None:
@@ -145,10 +297,55 @@ def execute(ops, paths, chk=None, inp=None):
             if chk is not None:
                 pr = coherent(d)
                 if pr:
-                    chk.fail("size, listing, iteration and per-series bookkeeping describe one set of unique keys in registration order",
-                             dict(inp, upto=len(recs) + 1, db=w), "coherent", pr, clause="coherent")
+                    chk.fail(T_COHERENT, dict(inp, upto=len(recs) + 1, db=w), "coherent", pr, clause="coherent")
+                for kk, v in list(d.register.items()):
+                    check_data(w, kk, v, "cached in the register", upto)
         recs.append("%s # %s # %s" % (out, digest(A, ids), digest(B, ids)))
-    return "ok " + " ; ".join(recs), (A, B, keep)
+    return "ok " + " ; ".join(recs), (A, B, keep, exp)
+
+
+def final_checks(state, chk, inp):
+    """on the databases a history ends with: every listed series is retrievable and holds the predicted data; caching
+    semantics; iteration and containment agree with the listing"""
+    A, B, keep, exp = state
+    for w, db in (("A", A), ("B", B)):
+        ks = list(db.register_keys)
+        for n, k in enumerate(ks):
+            chk.count("retrieve")
+            before = db.register.get(k)
+            try:
+                ts = db.get(name=k, store=False)
+            except Exception as e:
+                chk.fail("every listed series is retrievable by its key", dict(inp, db=w, key=k), "series", err_enum(e) + ": " + str(e)[:80],
+                         clause="retrievable")
+                continue
+            if db.register.get(k) is not before:
+                chk.fail(T_STORE_FALSE, dict(inp, db=w, key=k), str(before), str(db.register.get(k)), clause="store-false")
+            prov = exp[w].get(k)
+            if prov is not None and not same_data(ts, prov):
+                chk.fail(T_DATA, dict(inp, db=w, key=k, how="get(name=key, store=False) after the history"), describe(prov),
+                         dict(t=list(map(float, ts.t)), x=list(map(float, ts.x))), clause="data")
+            if n >= 4:
+                continue
+            if k not in db:
+                chk.fail(T_COHERENT, dict(inp, db=w, key=k), "key in db", "not contained", clause="contains")
+            ts1 = db.get(name=k, store=True)
+            ts2 = db.get(name=k, store=True)
+            if ts1 is not ts2 or db.register.get(k) is not ts1:
+                chk.fail(T_STORE_TRUE, dict(inp, db=w, key=k), "same object", "different", clause="store-true")
+        chk.count("oracle:iteration")
+        try:
+            _, items, probs = iteration(db)
+        except Exception as e:
+            items, probs = [], ["iteration raises " + err_enum(e) + ": " + str(e)[:80]]
+        if probs:
+            chk.fail(T_COHERENT, dict(inp, db=w, after="the whole history"), "iteration = listing order", probs, clause="iteration")
+        for k, ts in zip(ks, items):
+            prov = exp[w].get(k)
+            if prov is not None and not same_data(ts, prov):
+                chk.fail(T_DATA, dict(inp, db=w, key=k, how="iteration after the history"), describe(prov),
+                         dict(t=list(map(float, ts.t)), x=list(map(float, ts.x))), clause="data")
+                break
 
 
 def snapshot(db):
@@ -157,11 +354,214 @@ def snapshot(db):
             sorted((k, id(v), None if v is None else (v.name, v.parent, v.x.tobytes())) for k, v in db.register.items()))
 
 
+# ----------------------------------------------------------------------------------------------------------
+# second family: one file of every readable format, multi-series requests in non-file order
+# ----------------------------------------------------------------------------------------------------------
+NAME_ADDRESSED = ("h5", "mat", "tdms")
+APIS = ["getm", "getm", "getd", "getl", "getda"]
+
+
+def gen_fmt_history(rng, spec):
+    """ops are JSON lists; names are the series names currently registered (the generator follows clear / rename)"""
+    names = list(spec["names"])
+    fresh = ["r1", "r2", "r3"]
+    ops = [["load", rng.random() < 0.15]]
+    for _ in range(rng.randint(2, 6)):
+        k = len(names)
+        if k == 0:
+            break
+        r = rng.random()
+        store = rng.random() < 0.6
+        if r < 0.5:
+            m = rng.randint(min(2, k), k)
+            how = rng.choice(["names", "keys", "ind"])
+            sel = rng.sample(range(k), m)
+            if rng.random() < 0.3:
+                sel = sorted(sel, reverse=True)
+            ops.append(["get", rng.choice(APIS), how, sel if how == "ind" else [names[i] for i in sel], store])
+        elif r < 0.58:
+            ops.append(["get1", rng.choice(names), store])
+        elif r < 0.7:
+            sel = None if rng.random() < 0.3 else rng.sample(names, rng.randint(1, k))
+            ops.append(["copy", sel, rng.random() < 0.5])
+        elif r < 0.78:
+            sel = None if rng.random() < 0.3 else rng.sample(names, rng.randint(1, k))
+            ops.append(["update", sel, rng.random() < 0.5])
+        elif r < 0.86:
+            ops.append(["iter"])
+        elif r < 0.93 or spec["fmt"] in NAME_ADDRESSED or not fresh:
+            nm = rng.choice(names)
+            names.remove(nm)
+            ops.append(["clear", nm])
+        else:
+            i = rng.randrange(k)
+            new = fresh.pop(0)
+            ops.append(["rename", names[i], new])
+            names[i] = new
+    return ops
+
+
+def out_of_file_order(spec, ops):
+    names = list(spec["names"])
+    for op in ops:
+        if op[0] == "clear":
+            names.remove(op[1])
+        elif op[0] == "rename":
+            names[names.index(op[1])] = op[2]
+        elif op[0] == "get" and len(op[3]) > 1:
+            pos = list(op[3]) if op[2] == "ind" else [names.index(nm) for nm in op[3]]
+            if pos != sorted(pos):
+                return True
+    return False
+
+
+def fmt_execute(spec, path, ops, chk, inp):
+    from qats import TsDB
+    from . import c01
+    fmt = spec["fmt"]
+    tol = c01.tol_of(fmt)
+    sep = os.path.sep
+    cur = {}                     # plain dictionary model: registered name -> (t, x)
+    for j in range(len(spec["names"])):
+        nm, t, x = c01.stored(spec, j)
+        if fmt == "asc":
+            t, x = t[1:], x[1:]  # known finding F15 (C01): every .asc read lacks the first sample; compared modulo that shift
+        cur[nm] = (list(t), list(x))
+    db = TsDB()
+    reported = set()
+
+    def bad(text, n, expected, observed, clause, **kw):
+        if clause in reported:
+            return
+        reported.add(clause)
+        chk.fail(text, dict(inp, upto=n + 1, **kw), expected, observed, clause=clause, fmt=fmt)
+
+    def check(n, name, t, x, key, how):
+        chk.count("oracle:data")
+        if key is not None and name is not None and key != path + sep + name:
+            bad(T_DATA + " (the series under a key carries the name it is registered under)", n, key, name, "fmt-name", how=how)
+        if name is None:
+            name = key[len(path) + 1:]
+        if name not in cur:
+            bad(T_DATA + " (a returned series is one of the listed ones)", n, sorted(cur), name, "fmt-name", how=how)
+            return
+        wt, wx = cur[name]
+        if not (near(t, wt, tol) and near(x, wx, tol)):
+            bad(T_DATA, n, dict(name=name, t=wt, x=wx), dict(t=list(map(float, t)), x=list(map(float, x))), "fmt-data", how=how, key=key)
+
+    def check_db(n, d, how):
+        pr = coherent(d)
+        if pr:
+            bad(T_COHERENT, n, "coherent", pr, "coherent", how=how)
+        for k, v in list(d.register.items()):
+            if v is not None:
+                check(n, v.name, v.t, v.x, k, how)
+
+    for n, op in enumerate(ops):
+        kind = op[0]
+        cached = set(k for k, v in db.register.items() if v is not None)
+        got, store = [], None       # (key | None, series)
+        try:
+            if kind == "load":
+                db.load(path, read=op[1])
+            elif kind == "get":
+                api, how, sel, store = op[1], op[2], op[3], op[4]
+                if how == "ind":
+                    kw = dict(ind=list(sel))
+                elif how == "keys":
+                    kw = dict(names=[path + sep + nm for nm in sel])
+                else:
+                    kw = dict(names=list(sel))
+                label = "%s(%s=%s, store=%s)" % (api, "ind" if how == "ind" else "names", sel, store)
+                if api in ("getm", "getd"):
+                    c = getattr(db, api)(store=store, fullkey=True, **kw)
+                    got = list(c.items())
+                elif api == "getl":
+                    got = [(None, ts) for ts in db.getl(store=store, **kw)]
+                else:
+                    for k, (t, x) in db.getda(store=store, fullkey=True, **kw).items():
+                        check(n, None, t, x, k, label)
+                for k, ts in got:
+                    check(n, ts.name, ts.t, ts.x, k, label)
+            elif kind == "get1":
+                store = op[2]
+                ts = db.get(name=op[1], store=store)
+                got = [(None, ts)]
+                check(n, ts.name, ts.t, ts.x, None, "get(name=%r, store=%s)" % (op[1], store))
+                if ts.name != op[1]:
+                    bad(T_DATA + " (get by exact name returns the series of that name)", n, op[1], ts.name, "fmt-name")
+            elif kind in ("copy", "update"):
+                if kind == "copy":
+                    new = db.copy(names=op[1], shallow=not op[2])
+                else:
+                    new = TsDB()
+                    new.update(db, names=op[1], shallow=not op[2])
+                check_db(n, new, "%s(names=%s, shallow=%s): the new database" % (kind, op[1], not op[2]))
+                if any(v is None for v in new.register.values()):
+                    bad(T_DATA, n, "series", "None in the register of the new database", "fmt-data")
+            elif kind == "iter":
+                ks, items, probs = iteration(db)
+                chk.count("oracle:iteration")
+                if probs:
+                    bad(T_COHERENT, n, "iteration = listing order", probs, "iteration")
+                for k, ts in zip(ks, items):
+                    check(n, ts.name, ts.t, ts.x, k, "iteration")
+            elif kind == "clear":
+                db.clear(names=op[1], display=False)
+                cur.pop(op[1], None)
+            elif kind == "rename":
+                db.rename(op[1], op[2])
+                cur[op[2]] = cur.pop(op[1])
+        except Exception as e:
+            if kind in ("get", "get1", "iter", "copy", "update"):
+                bad("every listed series is retrievable", n, "series", err_enum(e) + ": " + str(e)[:100], "retrievable")
+            else:
+                chk.dist("fmt-history stopped at a refused %s" % kind)
+            return
+        now = set(k for k, v in db.register.items() if v is not None)
+        if store is False and now != cached:
+            bad(T_STORE_FALSE, n, sorted(cached), sorted(now), "store-false")
+        if store is True:
+            for k, ts in got:
+                kk = k if k is not None else path + sep + ts.name
+                if db.register.get(kk) is not ts:
+                    bad(T_STORE_TRUE + " (a series returned by a store-on retrieval is the cached one)", n, "cached", kk, "store-true")
+        if sorted(db.register_keys) != sorted(path + sep + nm for nm in cur):
+            bad(T_COHERENT + " (the listing is what the dictionary model holds)", n, sorted(cur), list(db.register_keys), "fmt-keys")
+        check_db(n, db, "cached in the register")
+    for k in list(db.register_keys):
+        try:
+            ts = db.get(name=k, store=False)
+        except Exception as e:
+            bad("every listed series is retrievable", len(ops) - 1, "series", err_enum(e) + ": " + str(e)[:100], "retrievable", key=k)
+            continue
+        check(len(ops) - 1, ts.name, ts.t, ts.x, k, "get(name=key, store=False) after the history")
+
+
+def rename_unread(spec, path, chk):
+    from qats import TsDB
+    db = TsDB.fromfile(path)
+    old = db.register_keys[0]
+    db.rename(old, "renamed_series")
+    chk.count("rename-then-read")
+    for k in list(db.register_keys):
+        try:
+            db.get(name=k, store=False)
+        except Exception as e:
+            chk.fail("every listed series is retrievable (after rename of a not-yet-read series)",
+                     dict(kind="rename-unread", spec=spec, format=spec["fmt"], renamed=old, key=k), "series",
+                     err_enum(e) + ": " + str(e)[:80], clause="f17", fmt=spec["fmt"])
+
+
 def run(chk):
     import itertools
     chk.extra["rule"] = RULE
-    chk.assumptions += ["series objects are abstract identities in the model; their data is C01's subject",
-                        "names lists of getm/update/copy contain one pattern (overlapping patterns make `_read` construct a series twice)"]
+    chk.assumptions += ["series objects are abstract identities in the model; their data is followed by a plain dictionary model in "
+                        "the harness (key -> generated file column / in-memory series)",
+                        "names lists of getm/update/copy contain one pattern or several distinct exact names, so that no key is "
+                        "selected twice (overlapping patterns make `_read` construct a series twice)",
+                        "`for ts in db` is modelled by its registry effect, getm(names=None, store=True)"]
+    chk.partial += [".asc files of the second family are compared modulo the known finding F15 of C01 (first sample missing)"]
     # F17: only name-addressed formats, only the renamed key
     chk.matchers["F17"] = lambda f: f.get("clause") == "f17" and f.get("fmt") in ("h5", "mat", "tdms") and \
         f["input"]["key"].endswith("renamed_series")
@@ -169,73 +569,67 @@ def run(chk):
     drv = core.Driver()
     fl = Files()
     try:
-        paths = [fl.make(rel, names, seed=i) for i, (rel, names) in enumerate(FILES)]
-        hist = [[tuple(o) for o in c["ops"]] for c in core.load_corpus("C08")]
+        paths = make_files(fl)
+        hist = [[tuple(o) for o in c["ops"]] for c in core.load_corpus("C08") if c.get("kind", "history") == "history"]
         hist += [gen_history(rng) for _ in range(250 if chk.quick else 4000)]
         if not chk.quick:
             alpha = [("load", "A", 0, False), ("load", "A", 0, True), ("load", "A", 1, False), ("load", "B", 0, False), ("add", "A", "a"),
                      ("add", "A", "T [kN/m]"), ("rename", "A", "a", "b"), ("rename", "A", "a", "new"), ("clear", "A", "a"), ("clear", "A", None),
                      ("update", None, True), ("update", "a", False), ("copy", None, True), ("copy", "b", False),
-                     ("getm", "A", None, True), ("getm", "A", "a", False)]
+                     ("getm", "A", None, True), ("getm", "A", "a", False), ("getm", "A", ["c", "a"], False), ("iter", "A")]
             for L in (1, 2, 3):
                 hist += [list(h) for h in itertools.product(alpha, repeat=L)]
         lines = [encode(h, paths) for h in hist]
         outs = drv.run(lines)
+        files = {rel: names for rel, names in FILES}
         for h, o in zip(hist, outs):
-            inp = dict(ops=[list(op) for op in h], files={p: n for p, (_, n) in zip(paths, FILES)})
+            inp = dict(ops=[list(op) for op in h], files=files)
             chk.count("db.run")
-            im, (A, B, keep) = execute(h, paths, chk, inp)
+            im, state = execute(h, paths, chk, inp)
             a, b = renumber(o), renumber(im)
             if a != b:
                 ao, bo = a.split(" ; "), b.split(" ; ")
                 i = next((i for i, (x, y) in enumerate(zip(ao, bo)) if x != y), min(len(ao), len(bo)))
                 chk.disagree("db.run", dict(inp, first_difference_at_op=i), ao[i] if i < len(ao) else None, bo[i] if i < len(bo) else None)
-            kinds = set(op[0] for op in h)
             if "err" in im and ("done" in im):
                 chk.nontriv(repr(h))
             chk.dist("len=%d" % min(len(h), 15))
             for op in h:
                 chk.dist("op:" + op[0])
+                if op[0] in ("getm", "update", "copy"):
+                    nm = op[2] if op[0] == "getm" else op[1]
+                    chk.dist("names:" + ("None" if nm is None else "several exact names" if isinstance(nm, (list, tuple)) else "one pattern"))
             for m in set(x.split(" #")[0] for x in im[3:].split(" ; ")):
                 chk.dist("out:" + (m.split()[0] + (" " + m.split()[1] if m.startswith("err") else "")))
-            # every listed series is retrievable; caching semantics
-            for db in (A, B):
-                ks = list(db.register_keys)
-                for k in ks[:4]:
-                    chk.count("retrieve")
-                    before = db.register.get(k)
-                    try:
-                        ts = db.get(name=k, store=False)
-                    except Exception as e:
-                        chk.fail("every listed series is retrievable by its key", dict(inp, key=k), "series", err_enum(e) + ": " + str(e)[:80],
-                                 clause="retrievable")
-                        continue
-                    if db.register.get(k) is not before:
-                        chk.fail("retrieval with caching disabled leaves no data behind", dict(inp, key=k), str(before), str(db.register.get(k)),
-                                 clause="store-false")
-                    ts1 = db.get(name=k, store=True)
-                    ts2 = db.get(name=k, store=True)
-                    if ts1 is not ts2 or db.register.get(k) is not ts1:
-                        chk.fail("with caching enabled later retrievals return the very same object", dict(inp, key=k), "same object", "different",
-                                 clause="store-true")
+            # every listed series is retrievable and holds the predicted data; caching semantics; iteration
+            final_checks(state, chk, inp)
             if len(chk.samples) < 3 and 4 <= len(h) <= 6:
                 chk.sample(dict(ops=[list(map(str, op)) for op in h], model_reply=a[:400]))
-        # ---- every listed series is retrievable, also after renaming a not-yet-read series of a name-addressed file (F17) ------------
-        from qats import TsDB
+        # ---- second family: one file per format, multi-series requests out of file order -----------------------------------------
         from . import c01
+        nh = 12 if chk.quick else 80
+        for fi, fmt in enumerate(c01.FORMATS):
+            spec = c01.gen_spec(rng, 20 + fi, fmt, k=rng.choice([3, 4, 5]), n=rng.randint(3, 5))
+            path = c01.write_file(fl.root, spec)
+            chk.dist("fmt-file:%s k=%d" % (fmt, len(spec["names"])))
+            k = len(spec["names"])
+            rev = list(range(k))[::-1]
+            # corner histories: the whole file in reverse file order, by name / key / index, fresh and partly cached
+            hs = [[["load", False], ["get", "getm", "names", [spec["names"][i] for i in rev], True], ["iter"]],
+                  [["load", False], ["get", "getl", "ind", rev, False], ["get", "getd", "keys", [spec["names"][i] for i in rev], True]],
+                  [["load", False], ["get1", spec["names"][k // 2], True], ["get", "getda", "ind", rev, True], ["copy", None, True]]]
+            hs += [gen_fmt_history(rng, spec) for _ in range(nh)]
+            for ops in hs:
+                chk.count("fmt-history")
+                fmt_execute(spec, path, ops, chk, dict(kind="fmt", spec=spec, ops=ops))
+                for op in ops:
+                    chk.dist("fmt-op:" + op[0] + (":" + op[1] + ":" + op[2] if op[0] == "get" else ""))
+                if out_of_file_order(spec, ops):
+                    chk.nontriv((fmt, repr(ops)))
+        # ---- every listed series is retrievable, also after renaming a not-yet-read series of a name-addressed file (F17) ------------
         for fmt in ("h5", "ts", "csv"):
             spec = c01.gen_spec(rng, 7, fmt, k=2, n=4, variant=0)
-            path = c01.write_file(fl.root, spec)
-            db = TsDB.fromfile(path)
-            old = db.register_keys[0]
-            db.rename(old, "renamed_series")
-            chk.count("rename-then-read")
-            for k in list(db.register_keys):
-                try:
-                    db.get(name=k, store=False)
-                except Exception as e:
-                    chk.fail("every listed series is retrievable (after rename of a not-yet-read series)",
-                             dict(format=fmt, renamed=old, key=k), "series", err_enum(e) + ": " + str(e)[:80], clause="f17", fmt=fmt)
+            rename_unread(spec, c01.write_file(fl.root, spec), chk)
     finally:
         fl.close()
 
@@ -244,16 +638,29 @@ def replay(rp):
     inp = rp["input"]
     fl = Files()
     try:
-        paths = [fl.make(rel, names, seed=i) for i, (rel, names) in enumerate(FILES)]
-        ops = [tuple(o) for o in inp["ops"]]
         chk = core.Check("C08", "quick", 0)
-        drv = core.Driver()
-        o = drv.run([encode(ops, paths)])[0]
-        im, _ = execute(ops, paths, chk, dict(ops=inp["ops"]))
+        kind = inp.get("kind", "history")
+        if kind in ("fmt", "rename-unread"):
+            from . import c01
+            path = c01.write_file(fl.root, inp["spec"])
+            if kind == "fmt":
+                fmt_execute(inp["spec"], path, inp["ops"], chk, dict(kind="fmt", spec=inp["spec"], ops=inp["ops"]))
+            else:
+                rename_unread(inp["spec"], path, chk)
+        else:
+            paths = make_files(fl)
+            ops = [tuple(o) for o in inp["ops"]]
+            try:
+                o = core.Driver().run([encode(ops, paths)])[0]
+            except Exception as e:                     # the oracles do not need the model
+                print("(model not available: %s)" % e)
+                o = None
+            im, state = execute(ops, paths, chk, dict(ops=inp["ops"]))
+            final_checks(state, chk, dict(ops=inp["ops"]))
+            if o is not None and renumber(o) != renumber(im):
+                print("model and implementation differ")
         for f in chk.failing:
-            print("FAILS:", f["oracle"], f["observed"])
-        if renumber(o) != renumber(im):
-            print("model and implementation differ")
+            print("FAILS:", f["oracle"], "| expected", str(f["expected"])[:200], "| observed", str(f["observed"])[:300])
         print("replay: %d failing clause(s)" % len(chk.failing))
         return 1 if chk.failing else 0
     finally:
